@@ -55,7 +55,7 @@ def gen(seed, tier):
     r = g.r
     cases = []
     n = 0
-    orders = [c for c in LETTERS] + [a + b for a in LETTERS for b in "asvN"] + ["x", "q", "zs", "sz"]
+    orders = [c for c in LETTERS] + [a + b for a in LETTERS for b in "asvN"] + ["x", "q", "zs", "sz", "s;a", "s a", "A-s", ";A", "a;", "s.A", "s:a", "asa", "sAs", "aa", "sas"]
     if tier != "quick":
         orders += [a + b for a in LETTERS for b in LETTERS]
     for ob in orders:
@@ -64,7 +64,8 @@ def gen(seed, tier):
             cases.append(("C15-%d" % n, "C", opts_str(o), seg(0, build_table(g))))
             n += 1
     for _ in range(40 if tier == "quick" else 400):
-        parts = ["".join(r.choice(LETTERS + "xyz") for _ in range(r.randint(0, 4))) or "x" for _ in range(r.randint(1, 3))]
+        parts = ["".join(r.choice(LETTERS + "xyz" + (";. -_0/:" if r.random() < 0.4 else "")) for _ in range(r.randint(0, 4))) or "x" for _ in range(r.randint(1, 3))]
+        parts = [p_.lstrip("-") or "x" for p_ in parts]      # a leading '-' would be read as an option by clap
         o = {"i": "e", "u": -1, "o": "+".join(parts)}
         if r.random() < 0.3:
             o["U"] = 1
